@@ -1,4 +1,4 @@
-import Wip.DX9
+import Cutadapt.Proofs.DpExactCut
 /-! C02: position of the reported match relative to the leftmost error-free copy, documented vocabulary. -/
 namespace Cutadapt.MatchSound
 open Cutadapt Cutadapt.Align Cutadapt.Spec Cutadapt.Generated Cutadapt.Adapters Cutadapt.Align.Exact
